@@ -431,6 +431,7 @@ type Contract struct {
 	Ghosts    []*GhostVar
 	Holds     map[string]int // lockset: mutex access path -> mode held at entry (1 read, 2 write)
 	Unguarded []string       // lockset: base access paths exempt from guard checks (unpublished objects)
+	NoWrite   []string       // access paths (x.f) this function must not assign, insert into or delete from
 }
 
 type GhostVar struct {
@@ -672,6 +673,17 @@ func (cs *ContractSet) loadContractFile(path, pkgPath string) error {
 				cur.Holds = map[string]int{}
 			}
 			cur.Holds[f[0]] = map[string]int{"R": 1, "W": 2}[f[1]]
+		case "nowrite":
+			// nowrite x.f, y.g : the function (and its closures) never stores to these fields and never
+			// inserts into / deletes from maps held in them
+			if cur == nil {
+				return fail(fmt.Errorf("nowrite outside func"))
+			}
+			for _, u := range strings.Split(rest, ",") {
+				if u = strings.TrimSpace(u); u != "" {
+					cur.NoWrite = append(cur.NoWrite, u)
+				}
+			}
 		case "unguarded":
 			if cur == nil {
 				return fail(fmt.Errorf("unguarded outside func"))
